@@ -65,7 +65,7 @@ func serverHarness(rc *RunCtx) {
 		}
 	}
 	env.kind = setting
-	env.proc = simsvc.NewFSimSvcProcessor(&simHandler{env: env})
+	env.proc = simsvc.NewFLeafProcessor(&simHandler{env: env})
 	rc.Sample["setting"], rc.Sample["protocol"] = setting, env.proto
 	rc.Nontrivial = true
 	key := setting + "/" + env.proto
